@@ -52,7 +52,9 @@ Definition expect_ok (c : pcase) : bool :=
   match c_expect c with Some ex => obs_eqb pdump_equiv ex (c_obs c) | None => true end.
 
 (* ----- recorded finding classes, decided on the input -----
-   D07: some fluent (initial or in a numeric goal) has a repeated argument;
+   D07: the initial fluents are not [safe_repeats] (some fluent with a repeated argument is not written the way the
+        library prints it, or two different fluents of one function have the same distinct arguments), or some
+        fluent in a numeric goal has a repeated argument;
    D19d: some fluent of a numeric goal is applied to undeclared or ill-typed arguments (its arity being right). *)
 Fixpoint nexp_has_repeat (n : nexp) : bool :=
   match n with
@@ -64,7 +66,7 @@ Fixpoint nexp_has_repeat (n : nexp) : bool :=
 Definition known_class (v : vocab) (c : pcase) : bool :=
   match spec_problem c with
   | Some sp =>
-      existsb (fun fl => has_dup_name (snd (fst fl))) (sp_fluents sp)
+      negb (safe_repeats sp)
       || existsb (fun g => match g with (_, l, r) => nexp_has_repeat l || nexp_has_repeat r end) (sp_goal_num sp)
       || existsb (fun g => match g with (_, l, r) =>
                              negb (nexp_ok v (sp_objects sp) l && nexp_ok v (sp_objects sp) r) end) (sp_goal_num sp)
